@@ -740,6 +740,7 @@ func runPorts(c *lib.Ctx, rng *lib.RNG, fails *[]lib.OracleFail) []lib.Mismatch 
 	}
 	if !wedged {
 		runPortConcurrentOpens(c, rng.Fork(), fails)
+		runPortCloseCases(c, rng.Fork(), fails)
 	}
 	ms, err := c.RunModel("c05p", sc)
 	if err != nil {
